@@ -237,6 +237,7 @@ def run(m: Model, r: Report, tier: str) -> None:
     psf = m.require_function(f"{LOG}.PenlogReader._parse_file_structure")
     ploops = [n for n in walk_no_nested(psf.node) if isinstance(n, ast.While)]
     okl = False
+    eof_if = []
     detail_l = "offset loop not found"
     if len(ploops) == 1 and isinstance(ploops[0].test, ast.Constant) and ploops[0].test.value is True:
         L_ = ploops[0]
@@ -254,7 +255,8 @@ def run(m: Model, r: Report, tier: str) -> None:
             dl = any(isinstance(s_, ast.Delete) and ast.unparse(s_.targets[0]) == "self._record_offsets[-1]" for s_ in eof_if[0].body)
             detail_l = f"eof test {bad_t or 'ok'}, append at {app}, readline at {rd}, last offset dropped at eof: {dl}"
             okl = not bad_t and len(app) == 1 and len(rd) == 1 and app[0] < rd[0] < L_.body.index(eof_if[0]) and dl and not any(isinstance(n, ast.Continue) for n in ast.walk(L_))
-    r.check(okl, "R10", f"{psf.qualname}#offset-table",
+    # (only the confirmed shape - `while True: tell; readline; if eof: drop, break` - is decided; another formulation of the table is "not recognised")
+    r.check3(okl if (okl or (len(ploops) == 1 and len(eof_if) == 1)) else None, "R10", f"{psf.qualname}#offset-table",
             f"{detail_l}; each iteration must record the position before reading a line, stop exactly at end-of-file and drop the position recorded for the "
             "non-existent line after the last newline", loc=psf.loc)
     # the offset table describes the whole file: it is built from position 0, whatever has been read before
@@ -432,7 +434,8 @@ def run(m: Model, r: Report, tier: str) -> None:
              f"{emit_bad[:2]}: the line must be '<' + priority + '>' + JSON, with the priority unmodified", loc=emit.loc, unknown_msg=f"emit is outside the evaluated language: {emit_unknown}")
     pp = m.require_function(f"{LOG}.PenlogRecord.parse_priority")
     sp = ast.unparse(pp.node)
-    r.check("data.startswith(b'<')" in sp and "data[1:data.index(b'>')]" in sp and "return None" in sp, "R3", f"{pp.qualname}#prefix-parse",
+    # (the values parse_priority returns are decided by evaluation in #prefix-value below; this is the structural confirmation of the usual spelling)
+    r.check3(True if ("data.startswith(b'<')" in sp and "data[1:data.index(b'>')]" in sp and "return None" in sp) else None, "R3", f"{pp.qualname}#prefix-parse",
             "parse_priority must read the number between '<' and the first '>' and return None without prefix", loc=pp.loc)
     # evaluated for every priority the writer can emit (0..8), with and without prefix
     from sa import miniterp as _mt
